@@ -16,7 +16,13 @@ Definition any_extra : list (string * string * string) := [("SDTContent", "r", "
 Definition I_fields_of := g_fields_of w_schema.
 Definition I_xmlname_of := g_xmlname_of w_xmlname.
 Definition I_cov := g_cov r_known implicit.
-Definition I_elty := g_elty w_xmlname w_roots r_known r_any_cases any_extra.
+(* element types that the reader chooses by looking at the content of the element, not at its name: a w:p with a
+   formula inside is read back as a formula paragraph, any other w:p as a paragraph.  The dispatch by name of the model
+   knows the ordinary type only; values that hold a formula paragraph do not conform (not_misread) and are compared by
+   the oracle *)
+Definition content_typed : list string := ["MathParagraph"].
+Definition I_roots : list string := filter (fun t => negb (memb t content_typed)) w_roots.
+Definition I_elty := g_elty w_xmlname I_roots r_known r_any_cases any_extra.
 
 Definition I_write := write I_fields_of I_xmlname_of.
 Definition I_read := read I_fields_of I_cov I_elty.
